@@ -3,6 +3,7 @@ import NetVerif.Gen.C36
 import NetVerif.Proofs.Lemmas.Dns
 import NetVerif.Proofs.Lemmas.DnsNames
 import NetVerif.Proofs.Lemmas.DnsMsg
+import NetVerif.Proofs.Lemmas.DnsBuilder
 /-!
 C36 — DNS messages round-trip through Pack/Unpack and the Builder: message level.
 (T-tie, header and name-level theorems of this property are in `Lemmas/DnsNames.lean`, the
@@ -17,7 +18,7 @@ Before the `ptr-depth` repair (`Name.pack` now asks `compressionDepth` before it
 pointer) this was false with compression; the old witness `deepMessage` is kept as an example.
 -/
 namespace NetVerif.Proofs.C36
-open NetVerif NetVerif.Model.Dns NetVerif.Proofs.Dns NetVerif.Proofs.DnsMsg
+open NetVerif NetVerif.Model.Dns NetVerif.Proofs.Dns NetVerif.Proofs.DnsMsg NetVerif.Proofs.DnsBuilder
 
 /-- C36, full strength, for either packer: whenever packing returns bytes, unpacking them
 returns the message. -/
@@ -83,5 +84,68 @@ theorem deepMessage_nocomp_ok :
   refine ⟨(packMessageWith deepMessage none).toOption.getD [], ?_, ?_⟩ <;> decide +kernel
 
 example : ∃ bytes, packMessage deepMessage = .ok bytes := ⟨_, deepMessage_ok.choose_spec.1⟩
+
+/-! ## The Builder -/
+
+/-- **"Building the same message with a Builder"**: for every accepted call sequence (every call
+returned nil; `EnableCompression`, if at all, before the first record; records well formed) the
+bytes `Finish` returns are exactly the bytes `Message.Pack` (with compression) resp.
+`AppendPack` without the map (without) produces for the message the calls describe … -/
+theorem builder_bytes_eq_pack (h : Header) (compress : Bool) (ops : List BOp)
+    (hops : ∀ op ∈ ops, op ≠ .enableCompression ∧ WFOp op)
+    (hacc : ∀ e ∈ ((startBuilder h compress).run ops).2, e = none) :
+    packMessageWith (describe h ops) (startComp compress) =
+      .ok ((startBuilder h compress).run ops).1.bytes :=
+  builder_eq_pack h compress ops hops hacc
+
+/-- … hence they unpack to that message, with and without compression. -/
+theorem builder_roundtrip (h : Header) (compress : Bool) (ops : List BOp)
+    (hh : h.id < 65536 ∧ h.opCode < 16 ∧ h.rCode < 16)
+    (hops : ∀ op ∈ ops, op ≠ .enableCompression ∧ WFOp op)
+    (hacc : ∀ e ∈ ((startBuilder h compress).run ops).2, e = none) :
+    ∃ l1 l2 l3, unpackMessage ((startBuilder h compress).run ops).1.bytes =
+      .ok (normMessage (describe h ops) l1 l2 l3) := by
+  rcases builder_describe_wf h compress ops hops hacc with ⟨hhdr, hwf⟩
+  have hm : WFMessage (describe h ops) := by
+    refine ⟨by rw [hhdr]; exact hh.1, by rw [hhdr]; exact hh.2.1, by rw [hhdr]; exact hh.2.2, ?_, ?_, ?_, ?_⟩
+    · intro q hq; exact hwf (.q q) (by simp [recs, hq])
+    · intro r hr; exact hwf (.r r) (by simp [recs, hr])
+    · intro r hr; exact hwf (.r r) (by simp [recs, hr])
+    · intro r hr; exact hwf (.r r) (by simp [recs, hr])
+  have hcomp : startComp compress = none ∨ startComp compress = some [] := by
+    cases compress <;> simp [startComp]
+  rcases message_holds (describe h ops) (startComp compress) _ hcomp hm
+    (builder_eq_pack h compress ops hops hacc) with ⟨l1, l2, l3, _, _, _, hu⟩
+  exact ⟨l1, l2, l3, hu⟩
+
+/-- **A failed call** changes nothing but (possibly) the compression map. -/
+theorem builder_failed_call (b : Builder) (op : BOp) (h : (b.step op).2 ≠ none) :
+    (b.step op).1.msg = b.msg ∧ (b.step op).1.sec = b.sec ∧ (b.step op).1.id = b.id ∧
+    (b.step op).1.bits = b.bits ∧ (b.step op).1.nq = b.nq ∧ (b.step op).1.na = b.na ∧
+    (b.step op).1.nu = b.nu ∧ (b.step op).1.nr = b.nr :=
+  step_failed b op h
+
+/-- The stale-map quirk, precisely: `Name.pack` has already entered the suffixes of the header name
+of the failed record ("foo.example." at 12, "example." at 16) into the map when the body fails
+(a 256-byte TXT string); the bytes are discarded, the entries are not. The next record
+"bar.example." is then compressed against offset 16 - which now holds that record's own pointer:
+the Builder returns, without any error, a message that does not unpack. -/
+def zeroHeader : Header :=
+  { id := 7, response := false, opCode := 0, authoritative := false, truncated := false,
+    recursionDesired := false, recursionAvailable := false, authenticData := false,
+    checkingDisabled := false, rCode := 0 }
+
+def staleOps : List BOp :=
+  [.start 3,
+   .resource { hdr := { name := [102,111,111,46,101,120,97,109,112,108,101,46], typ := 0, cls := 1, ttl := 0, length := 0 },
+               body := .txt [List.replicate 256 65] },
+   .resource { hdr := { name := [98,97,114,46,101,120,97,109,112,108,101,46], typ := 0, cls := 1, ttl := 60, length := 0 },
+               body := .a [1, 2, 3, 4] },
+   .finish]
+
+theorem stale_map_quirk :
+    ((startBuilder zeroHeader true).run staleOps).2 = [none, some .stringTooLong, none, none] ∧
+    unpackMessage ((startBuilder zeroHeader true).run staleOps).1.bytes = .error .tooManyPtr := by
+  constructor <;> decide +kernel
 
 end NetVerif.Proofs.C36
